@@ -410,6 +410,20 @@ pub fn main(args: &[String]) {
         let case = rand_adf(&mut rng, n, format!("p{}", k));
         writeln!(f, "{}", persist_job(&cli, &work, &format!("p{}", k), &case.text())).unwrap();
     }
+    // deep frameworks through --export / --import: a constant per statement and one chain over all the others (and / or / xor),
+    // 64-70 statements - the repair step and the node bookkeeping meet diagrams deeper than the machine word here
+    let ndeep = if tier == "feat" { 1 } else { 3 };
+    for k in 0..ndeep {
+        let n = [70usize, 66, 64][k % 3];
+        let mut asts: Vec<Ast> = (0..n).map(|i| if k % 3 == 1 && i % 2 == 0 { Ast::Bot } else { Ast::Top }).collect();
+        let mut chain = Ast::Atom(n - 2);
+        for i in (0..n - 2).rev() {
+            chain = match k % 3 { 0 => and(Ast::Atom(i), chain), 1 => xor(Ast::Atom(i), chain), _ => or(Ast::Atom(i), chain) };
+        }
+        asts[n - 1] = chain;
+        let case = AdfCase { id: format!("pd{}", k), labels: (0..n).map(|i| format!("x{}", i)).collect(), asts };
+        writeln!(f, "{}", persist_job(&cli, &work, &format!("pd{}", k), &case.text())).unwrap();
+    }
     let nfs = if tier == "thorough" { 150 } else if tier == "feat" { 10 } else { 30 };
     for k in 0..nfs {
         writeln!(f, "{}", fs_session(&mut rng, &cli, &work, &format!("f{}", k))).unwrap();
